@@ -100,7 +100,14 @@ class DictProxy(dict):
         super().__setitem__(key, value)
 
     def _ref_path(self, key: str) -> str:
-        return "%s[%s]" % (self.dict_field._ref_path, key)
+        # the path of the owning configuration (which knows its parents and list position), not of
+        # the schema the field was declared in
+        cfg_path = getattr(self.cfg, "_ref_path", None)
+        if isinstance(cfg_path, str):
+            path = (cfg_path + "." if cfg_path else "") + self.dict_field._key
+        else:
+            path = self.dict_field._ref_path
+        return "%s[%s]" % (path, key)
 
     def _validate(self, key: Any, value: Any) -> Tuple[Any, Any]:
         try:
